@@ -50,22 +50,22 @@ IndexOf(seq, x) == CHOOSE k \in 1..Len(seq) : seq[k] = x
 
 DecMisc(h) ==                                                               \* table A6-5
     LET op == Bits(h, 8, 4) IN
-    CASE op = 0 -> [T(IF Bit(h, 7) = 0 THEN "add" ELSE "sub", "addsub_sp") EXCEPT
+    CASE op = 0 -> [T(IF IBit(h, 7) = 0 THEN "add" ELSE "sub", "addsub_sp") EXCEPT
                         !.rd = SP, !.rn = SP, !.imm = 4 * Bits(h, 0, 7), !.impl = {SP}]
       [] op \in {1, 3, 9, 11} ->                                            \* 1011 op 0 i 1 imm5 Rn
-            [T(IF Bit(h, 11) = 0 THEN "cbz" ELSE "cbnz", "cbz") EXCEPT
-                        !.rn = Bits(h, 0, 3), !.imm = 2 * (32 * Bit(h, 9) + Bits(h, 3, 5))]
+            [T(IF IBit(h, 11) = 0 THEN "cbz" ELSE "cbnz", "cbz") EXCEPT
+                        !.rn = Bits(h, 0, 3), !.imm = 2 * (32 * IBit(h, 9) + Bits(h, 3, 5))]
       [] op = 2 -> [T(ExtMn[Bits(h, 6, 2) + 1], "extend") EXCEPT !.rd = Bits(h, 0, 3), !.rm = Bits(h, 3, 3)]
-      [] op \in {4, 5} -> LET l == RegSet(Bits(h, 0, 8), 8) \cup (IF Bit(h, 8) = 1 THEN {LR} ELSE {}) IN
+      [] op \in {4, 5} -> LET l == RegSet(Bits(h, 0, 8), 8) \cup (IF IBit(h, 8) = 1 THEN {LR} ELSE {}) IN
             IF l = {} THEN Bad("unpredictable", 2)
             ELSE [T("push", "push") EXCEPT !.rn = SP, !.list = l, !.impl = {SP}]
-      [] op \in {12, 13} -> LET l == RegSet(Bits(h, 0, 8), 8) \cup (IF Bit(h, 8) = 1 THEN {PC} ELSE {}) IN
+      [] op \in {12, 13} -> LET l == RegSet(Bits(h, 0, 8), 8) \cup (IF IBit(h, 8) = 1 THEN {PC} ELSE {}) IN
             IF l = {} THEN Bad("unpredictable", 2)
             ELSE [T("pop", "pop") EXCEPT !.rn = SP, !.list = l, !.impl = {SP}]
-      [] op = 6 -> IF Bits(h, 5, 3) = 3 THEN (IF Bit(h, 3) = 1 THEN Bad("unpredictable", 2)       \* 1011 0110 011 im (0) A I F
+      [] op = 6 -> IF Bits(h, 5, 3) = 3 THEN (IF IBit(h, 3) = 1 THEN Bad("unpredictable", 2)       \* 1011 0110 011 im (0) A I F
                                               ELSE [T("cps", "cps") EXCEPT !.imm = Bits(h, 0, 5)])
-                   ELSE IF Bits(h, 5, 3) = 2 /\ Bit(h, 4) = 1 /\ Bits(h, 0, 3) = 0
-                        THEN [T("setend", "setend") EXCEPT !.imm = Bit(h, 3)]
+                   ELSE IF Bits(h, 5, 3) = 2 /\ IBit(h, 4) = 1 /\ Bits(h, 0, 3) = 0
+                        THEN [T("setend", "setend") EXCEPT !.imm = IBit(h, 3)]
                    ELSE Bad("undefined", 2)
       [] op = 10 -> IF Bits(h, 6, 2) = 2 THEN Bad("undefined", 2)
                     ELSE [T(<<"rev", "rev16", "?", "revsh">>[Bits(h, 6, 2) + 1], "rev") EXCEPT
@@ -78,13 +78,13 @@ DecMisc(h) ==                                                               \* t
       [] OTHER -> Bad("undefined", 2)                                       \* 0111, 1000
 
 DecSpecial(h) ==                                                            \* table A6-4
-    LET op == Bits(h, 8, 2)  rm == Bits(h, 3, 4)  rdn == 8 * Bit(h, 7) + Bits(h, 0, 3) IN
+    LET op == Bits(h, 8, 2)  rm == Bits(h, 3, 4)  rdn == 8 * IBit(h, 7) + Bits(h, 0, 3) IN
     CASE op = 0 -> [T("add", "special") EXCEPT !.rd = rdn, !.rn = rdn, !.rm = rm]
       [] op = 1 -> IF (rdn < 8 /\ rm < 8) \/ rdn = PC \/ rm = PC THEN Bad("unpredictable", 2)
                    ELSE [T("cmp", "special") EXCEPT !.s = TRUE, !.rn = rdn, !.rm = rm]
       [] op = 2 -> [T("mov", "special") EXCEPT !.rd = rdn, !.rm = rm]
-      [] op = 3 -> IF Bits(h, 0, 3) # 0 \/ (Bit(h, 7) = 1 /\ rm = PC) THEN Bad("unpredictable", 2)
-                   ELSE [T(IF Bit(h, 7) = 0 THEN "bx" ELSE "blx", "special") EXCEPT !.rm = rm]
+      [] op = 3 -> IF Bits(h, 0, 3) # 0 \/ (IBit(h, 7) = 1 /\ rm = PC) THEN Bad("unpredictable", 2)
+                   ELSE [T(IF IBit(h, 7) = 0 THEN "bx" ELSE "blx", "special") EXCEPT !.rm = rm]
 
 DecDp(h) ==                                                                 \* table A6-3
     LET op == Bits(h, 6, 4)  m == DpMn[op + 1]  r3 == Bits(h, 3, 3)  r0 == Bits(h, 0, 3) IN
@@ -102,8 +102,8 @@ Dec16(f, h) ==
             ELSE [T(ShiftMn[op + 1], f) EXCEPT !.s = TRUE, !.rd = Bits(h, 0, 3), !.rm = Bits(h, 3, 3),
                                               !.imm = IF imm5 = 0 THEN 32 ELSE imm5]
       [] f = "addsub" ->
-            LET m == IF Bit(h, 9) = 0 THEN "add" ELSE "sub" IN
-            IF Bit(h, 10) = 0
+            LET m == IF IBit(h, 9) = 0 THEN "add" ELSE "sub" IN
+            IF IBit(h, 10) = 0
             THEN [T(m, f) EXCEPT !.s = TRUE, !.rd = Bits(h, 0, 3), !.rn = Bits(h, 3, 3), !.rm = Bits(h, 6, 3)]
             ELSE [T(m, f) EXCEPT !.s = TRUE, !.rd = Bits(h, 0, 3), !.rn = Bits(h, 3, 3), !.imm = Bits(h, 6, 3)]
       [] f = "imm8" ->
@@ -117,23 +117,23 @@ Dec16(f, h) ==
                                               !.am = "off", !.impl = {PC}]
       [] f = "ldst_reg" -> [T(LdstRegMn[Bits(h, 9, 3) + 1], f) EXCEPT
                                 !.rd = Bits(h, 0, 3), !.rn = Bits(h, 3, 3), !.rm = Bits(h, 6, 3), !.am = "off"]
-      [] f = "ldst_w" -> [T(IF Bit(h, 11) = 0 THEN "str" ELSE "ldr", f) EXCEPT
+      [] f = "ldst_w" -> [T(IF IBit(h, 11) = 0 THEN "str" ELSE "ldr", f) EXCEPT
                                 !.rd = Bits(h, 0, 3), !.rn = Bits(h, 3, 3), !.imm = 4 * Bits(h, 6, 5), !.am = "off"]
-      [] f = "ldst_b" -> [T(IF Bit(h, 11) = 0 THEN "strb" ELSE "ldrb", f) EXCEPT
+      [] f = "ldst_b" -> [T(IF IBit(h, 11) = 0 THEN "strb" ELSE "ldrb", f) EXCEPT
                                 !.rd = Bits(h, 0, 3), !.rn = Bits(h, 3, 3), !.imm = Bits(h, 6, 5), !.am = "off"]
-      [] f = "ldst_h" -> [T(IF Bit(h, 11) = 0 THEN "strh" ELSE "ldrh", f) EXCEPT
+      [] f = "ldst_h" -> [T(IF IBit(h, 11) = 0 THEN "strh" ELSE "ldrh", f) EXCEPT
                                 !.rd = Bits(h, 0, 3), !.rn = Bits(h, 3, 3), !.imm = 2 * Bits(h, 6, 5), !.am = "off"]
-      [] f = "ldst_sp" -> [T(IF Bit(h, 11) = 0 THEN "str" ELSE "ldr", f) EXCEPT
+      [] f = "ldst_sp" -> [T(IF IBit(h, 11) = 0 THEN "str" ELSE "ldr", f) EXCEPT
                                 !.rd = Bits(h, 8, 3), !.rn = SP, !.imm = 4 * Bits(h, 0, 8), !.am = "off", !.impl = {SP}]
       [] f = "adr_addsp" ->
-            IF Bit(h, 11) = 0
+            IF IBit(h, 11) = 0
             THEN [T("adr", f) EXCEPT !.rd = Bits(h, 8, 3), !.rn = PC, !.imm = 4 * Bits(h, 0, 8), !.impl = {PC}]
             ELSE [T("add", f) EXCEPT !.rd = Bits(h, 8, 3), !.rn = SP, !.imm = 4 * Bits(h, 0, 8), !.impl = {SP}]
       [] f = "misc" -> DecMisc(h)
       [] f = "ldm_stm" ->
             LET l == RegSet(Bits(h, 0, 8), 8)  rn == Bits(h, 8, 3) IN
             IF l = {} THEN Bad("unpredictable", 2)
-            ELSE IF Bit(h, 11) = 0 THEN [T("stm", f) EXCEPT !.rn = rn, !.list = l, !.am = "ia!"]
+            ELSE IF IBit(h, 11) = 0 THEN [T("stm", f) EXCEPT !.rn = rn, !.list = l, !.am = "ia!"]
             ELSE [T("ldm", f) EXCEPT !.rn = rn, !.list = l, !.am = IF rn \in l THEN "ia" ELSE "ia!"]
       [] f = "bcond" ->
             LET c == Bits(h, 8, 4) IN
@@ -149,17 +149,17 @@ Decode16(h) == LET m == Matches16(h) IN
 (* 32-bit encodings (A6.3): only the ones ppci emits are modelled            *)
 T4(mn, enc) == [I0 EXCEPT !.mn = mn, !.enc = enc, !.len = 4]
 BranchImm25(h1, h2) ==                                \* SignExtend(S:I1:I2:imm10:imm11:'0'), I = NOT(J EOR S)
-    LET sg == Bit(h1, 10)  i1 == 1 - Xor(Bit(h2, 13), sg)  i2 == 1 - Xor(Bit(h2, 11), sg) IN
+    LET sg == IBit(h1, 10)  i1 == 1 - XorBit(IBit(h2, 13), sg)  i2 == 1 - XorBit(IBit(h2, 11), sg) IN
     SignExt(sg * P2(24) + i1 * P2(23) + i2 * P2(22) + Bits(h1, 0, 10) * P2(12) + Bits(h2, 0, 11) * 2, 25)
 BranchImm21(h1, h2) ==                                \* SignExtend(S:J2:J1:imm6:imm11:'0')
-    SignExt(Bit(h1, 10) * P2(20) + Bit(h2, 11) * P2(19) + Bit(h2, 13) * P2(18) + Bits(h1, 0, 6) * P2(12)
+    SignExt(IBit(h1, 10) * P2(20) + IBit(h2, 11) * P2(19) + IBit(h2, 13) * P2(18) + Bits(h1, 0, 6) * P2(12)
             + Bits(h2, 0, 11) * 2, 21)
 Decode32(h1, h2) ==
-    IF Bits(h1, 11, 5) = 30 /\ Bit(h2, 15) = 1 THEN                        \* branches and miscellaneous control
-       (LET k == 2 * Bit(h2, 14) + Bit(h2, 12) IN
+    IF Bits(h1, 11, 5) = 30 /\ IBit(h2, 15) = 1 THEN                        \* branches and miscellaneous control
+       (LET k == 2 * IBit(h2, 14) + IBit(h2, 12) IN
         CASE k = 3 -> [T4("bl", "T1") EXCEPT !.imm = BranchImm25(h1, h2)]
           [] k = 1 -> [T4("b", "T4") EXCEPT !.imm = BranchImm25(h1, h2)]
-          [] k = 2 -> IF Bit(h2, 0) = 1 THEN Bad("undefined", 4)
+          [] k = 2 -> IF IBit(h2, 0) = 1 THEN Bad("undefined", 4)
                       ELSE [T4("blx", "T2") EXCEPT !.imm = BranchImm25(h1, h2)]
           [] k = 0 -> IF Bits(h1, 6, 4) >= 14 THEN Bad("unsupported", 4)    \* msr, hints, barriers ...
                       ELSE [T4("b", "T3") EXCEPT !.cond = Bits(h1, 6, 4), !.imm = BranchImm21(h1, h2)])
@@ -219,16 +219,16 @@ Enc16(i) ==
                                          [] OTHER -> 256 * i.cond + Pattern(i.imm \div 2, 8))
       [] f = "b" -> 28 * P2(11) + Pattern(i.imm \div 2, 11)
 Enc32(i) ==                                           \* <<first halfword, second halfword>>
-    LET v25 == Pattern(i.imm, 25)  sg == Bit(v25, 24)
-        j1 == 1 - Xor(Bit(v25, 23), sg)  j2 == 1 - Xor(Bit(v25, 22), sg)
+    LET v25 == Pattern(i.imm, 25)  sg == IBit(v25, 24)
+        j1 == 1 - XorBit(IBit(v25, 23), sg)  j2 == 1 - XorBit(IBit(v25, 22), sg)
         hi25 == 30 * P2(11) + sg * P2(10) + Bits(v25, 12, 10)
         lo25 == j1 * P2(13) + j2 * P2(11) + Bits(v25, 1, 11)
         v21 == Pattern(i.imm, 21) IN
     CASE i.mn = "bl" -> <<hi25, 3 * P2(14) + P2(12) + lo25>>
       [] i.mn = "blx" /\ i.rm = NoReg -> <<hi25, 3 * P2(14) + lo25>>
       [] i.mn = "b" /\ i.enc = "T4" -> <<hi25, P2(15) + P2(12) + lo25>>
-      [] i.mn = "b" /\ i.enc = "T3" -> <<30 * P2(11) + Bit(v21, 20) * P2(10) + i.cond * 64 + Bits(v21, 12, 6),
-                                        P2(15) + Bit(v21, 18) * P2(13) + Bit(v21, 19) * P2(11) + Bits(v21, 1, 11)>>
+      [] i.mn = "b" /\ i.enc = "T3" -> <<30 * P2(11) + IBit(v21, 20) * P2(10) + i.cond * 64 + Bits(v21, 12, 6),
+                                        P2(15) + IBit(v21, 18) * P2(13) + IBit(v21, 19) * P2(11) + Bits(v21, 1, 11)>>
       [] i.mn \in {"sdiv", "udiv"} -> <<(IF i.mn = "sdiv" THEN 4025 ELSE 4027) * 16 + i.rn, 15 * P2(12) + 256 * i.rd + 15 * 16 + i.rm>>
 HwBytes(h) == <<h % 256, h \div 256>>
 Encode(i) == IF i.len = 2 THEN HwBytes(Enc16(i)) ELSE LET p == Enc32(i) IN HwBytes(p[1]) \o HwBytes(p[2])
